@@ -80,6 +80,36 @@ def install_coop_locks():
     threading.RLock = _coop_rlock
 
 
+def import_lock_users():
+    """Import - while the cooperative factories are installed - every beartype module that takes Lock / RLock from ``threading``.
+    Several of them (beartype.claw._clawstate for one) are imported lazily, i.e. possibly after restore_real_locks(), and would
+    then create real locks the scheduler cannot see: a managed thread blocking on one stalls the whole run."""
+    import importlib
+    import os
+    import re
+    import beartype
+    root = os.path.dirname(beartype.__file__)
+    pat = re.compile(r'^\s*(from threading import|import threading)', re.M)
+    for d, _dirs, files in os.walk(root):
+        for f in files:
+            if not f.endswith('.py'):
+                continue
+            path = os.path.join(d, f)
+            try:
+                with open(path, encoding='utf-8') as fh:
+                    if not pat.search(fh.read()):
+                        continue
+            except OSError:
+                continue
+            rel = os.path.relpath(path, os.path.dirname(root))[:-3].replace(os.sep, '.')
+            if rel.endswith('.__init__'):
+                rel = rel[:-9]
+            try:
+                importlib.import_module(rel)
+            except Exception:
+                pass
+
+
 def restore_real_locks():
     threading.Lock = _REAL_LOCK
     threading.RLock = _REAL_RLOCK
